@@ -7,29 +7,28 @@ Theorem degrees_spec g i : length (degrees g) = length g /\ nth i (degrees g) 0 
 Proof. unfold degrees, nbrs. split; [apply map_length|].
   change 0 with (length (@nil nat)). apply map_nth. Qed.
 
-(* what the code tests: at least two vertices, every degree 1 or 2, exactly two of degree 1 *)
-Theorem is_linear_spec g :
-  is_linear g = true <->
-  (2 <= length g /\ (forall d, In d (degrees g) -> 1 <= d <= 2)
-   /\ length (filter (Nat.eqb 1) (degrees g)) = 2).
-Proof. unfold is_linear. destruct (Nat.ltb (length g) 2) eqn:E;
+(* is_linear g = true exactly when g is a path on all its vertices: at least two vertices,
+   every degree 1 or 2, exactly two vertices of degree 1, and connected (every vertex
+   reachable from vertex 0) *)
+Theorem is_linear_spec g : wf g ->
+  (is_linear g = true <->
+   (2 <= length g /\ (forall d, In d (degrees g) -> 1 <= d <= 2)
+    /\ length (filter (Nat.eqb 1) (degrees g)) = 2 /\ allreach g)).
+Proof. intros Hwf. unfold is_linear. destruct (Nat.ltb (length g) 2) eqn:E;
     [apply Nat.ltb_lt in E|apply Nat.ltb_ge in E].
   - split; [discriminate|intros (H & _); lia].
-  - rewrite andb_true_iff, forallb_forall, Nat.eqb_eq. split.
-    + intros [H1 H2]. split; auto. split; auto. intros d Hd. specialize (H1 d Hd).
-      apply andb_true_iff in H1 as [Ha Hb]. apply negb_true_iff, Nat.eqb_neq in Ha. apply Nat.leb_le in Hb. lia.
-    + intros (_ & H1 & H2). split; auto. intros d Hd. specialize (H1 d Hd).
+  - destruct (is_fully_connected_spec g Hwf) as (b & Hb & Hiff); [lia|]. rewrite Hb.
+    rewrite !andb_true_iff, forallb_forall, Nat.eqb_eq. split.
+    + intros [[H1 H2] H3]. split; auto. split; [|split; auto; apply Hiff; auto].
+      intros d Hd. specialize (H1 d Hd).
+      apply andb_true_iff in H1 as [Ha Hc]. apply negb_true_iff, Nat.eqb_neq in Ha. apply Nat.leb_le in Hc. lia.
+    + intros (_ & H1 & H2 & H3). split; [split; auto|apply Hiff; auto]. intros d Hd. specialize (H1 d Hd).
       apply andb_true_iff. split; [apply negb_true_iff, Nat.eqb_neq; lia|apply Nat.leb_le; lia]. Qed.
 
-(* ... which is NOT "linearly connected": a path next to a triangle passes the test *)
-Theorem is_linear_refuted :
-  exists g, wf g /\ sym g /\ loopfree g /\ is_linear g = true /\ is_fully_connected g = Some false.
-Proof. exists [[1]; [0]; [3; 4]; [2; 4]; [2; 3]].
-  assert (Hn : forall q x, In x (nbrs [[1]; [0]; [3; 4]; [2; 4]; [2; 3]] q) ->
-            (q = 0 /\ x = 1) \/ (q = 1 /\ x = 0) \/ (q = 2 /\ (x = 3 \/ x = 4)) \/ (q = 3 /\ (x = 2 \/ x = 4)) \/ (q = 4 /\ (x = 2 \/ x = 3))).
-  { intros q x H. destruct q as [|[|[|[|[|q]]]]]; simpl in H; try (destruct q; contradiction); intuition lia. }
-  split; [|split; [|split; [|split; reflexivity]]].
-  - intros q x H. apply Hn in H. simpl. lia.
-  - intros a b H. apply Hn in H.
-    destruct H as [[-> ->]|[[-> ->]|[[-> [->| ->]]|[[-> [->| ->]]|[-> [->| ->]]]]]]; simpl; auto.
-  - intros a H. apply Hn in H. lia. Qed.
+(* regression witness of the fixed defect C20-F6: a path next to a triangle has the degree
+   profile of a path but is not linearly connected - now rejected *)
+Example is_linear_path_plus_triangle : is_linear [[1]; [0]; [3; 4]; [2; 4]; [2; 3]] = false.
+Proof. reflexivity. Qed.
+
+Example is_linear_path : is_linear [[1]; [0; 2]; [1; 3]; [2]] = true.
+Proof. reflexivity. Qed.
